@@ -12,6 +12,7 @@ import (
 	"io"
 	"log"
 	"os"
+	"reflect"
 	"strings"
 	"time"
 
@@ -273,14 +274,25 @@ func partRelays(run *ev.Run) (evals int) {
 					desc := fmt.Sprintf("payload=%q outcome=(%d,%v) sync=%v", trunc(p), n, werr, serr)
 					check := func(name string, ws zapcore.WriteSyncer, s *scripted, expectSyncCalls int, expectSyncErr error) {
 						evals++
-						gn, gerr := ws.Write([]byte(p))
+						// under the controlled scheduler: a lock that is not released on some path shows as a
+						// deadlock verdict of this very case instead of hanging the enumeration
+						var gn int
+						var gerr, se error
+						res := vsched.Run(nil, func() {
+							gn, gerr = ws.Write([]byte(p))
+							se = ws.Sync()
+						})
+						if res.Verdict != vsched.OK {
+							what := map[int]string{vsched.Deadlock: "deadlocked", vsched.Panicked: "panicked", vsched.Leaked: "left a goroutine behind", vsched.Stuck: "got stuck"}[res.Verdict]
+							run.Report("relay:"+name+":"+what, fmt.Sprintf("%s: Write followed by Sync %s (%v %s): %s", name, what, res.PanicVal, res.Blocked, desc), desc)
+							return
+						}
 						if gn != want(s) || gerr != werr {
 							run.Report("relay:"+name+":write", fmt.Sprintf("%s: Write returned (%d,%v), wrapped writer returned (%d,%v): %s", name, gn, gerr, want(s), werr, desc), desc)
 						}
 						if len(s.writes) != 1 || string(s.writes[0]) != p {
 							run.Report("relay:"+name+":bytes", fmt.Sprintf("%s: wrapped writer saw %d writes: %s", name, len(s.writes), desc), desc)
 						}
-						se := ws.Sync()
 						if se != expectSyncErr {
 							run.Report("relay:"+name+":syncerr", fmt.Sprintf("%s: Sync returned %v want %v: %s", name, se, expectSyncErr, desc), desc)
 						}
@@ -371,10 +383,25 @@ func partMulti(run *ev.Run, maxK int) (evals int, distinct map[string]bool) {
 			total *= len(outs)
 		}
 		for v := 0; v < total; v++ {
-			for ci := 0; ci < 6; ci++ {
+			for ci := 0; ci < 6+6; ci++ {
+				// ci >= 6: nested multi-syncers (k in 3..5, distinct errors): the first two, a middle pair, or
+				// all but the last sink sit in an inner NewMultiWriteSyncer that is itself an argument of the outer one
+				nest := 0
+				if ci >= 6 {
+					if k < 3 || k > 5 {
+						continue
+					}
+					nest = (ci-6)/2 + 1
+					if nest == 2 && k < 4 {
+						continue
+					}
+				}
 				// error identity: distinct values; one shared value (io.ErrClosedPipe from every failing sink);
 				// a chain in which every failing sink's error wraps the previous one's (k <= 4 for the last two)
 				combine, errKind := ci%2 == 1, ci/2
+				if nest > 0 {
+					errKind = 0
+				}
 				if errKind > 0 && k > 4 {
 					continue
 				}
@@ -411,11 +438,31 @@ func partMulti(run *ev.Run, maxK int) (evals int, distinct map[string]bool) {
 				label += [...]string{"", " [every failing sink returns the same error value]", " [every failing sink's error wraps the previous one's]"}[errKind]
 				var ws zapcore.WriteSyncer
 				name := "NewMultiWriteSyncer"
+				args := append([]zapcore.WriteSyncer(nil), wss...)
+				if nest > 0 {
+					a, b := 0, 2
+					switch nest {
+					case 2:
+						a, b = 1, 3
+					case 3:
+						a, b = 0, k-1
+					}
+					inner := zapcore.NewMultiWriteSyncer(append([]zapcore.WriteSyncer(nil), wss[a:b]...)...)
+					args = append(append(append([]zapcore.WriteSyncer(nil), wss[:a]...), inner), wss[b:]...)
+					label += fmt.Sprintf(" [sinks %d..%d nested in an inner multi-syncer]", a, b-1)
+				}
+				given := append([]zapcore.WriteSyncer(nil), args...)
 				if combine {
-					ws = zap.CombineWriteSyncers(wss...)
+					ws = zap.CombineWriteSyncers(args...)
 					name = "CombineWriteSyncers"
 				} else {
-					ws = zapcore.NewMultiWriteSyncer(wss...)
+					ws = zapcore.NewMultiWriteSyncer(args...)
+				}
+				for i := range given {
+					if !sameSyncer(args[i], given[i]) {
+						run.Report("multi:argument-slice-modified", fmt.Sprintf("%s k=%d outcomes %s: the constructor rewrote the slice it was given (element %d)", name, k, label, i), label)
+						break
+					}
 				}
 				evals++
 				n, err := ws.Write(payload)
@@ -520,7 +567,10 @@ type exclSink struct {
 	overlaps int
 	calls    int
 	log      []string // operations in arrival order (payload of writes, "S" for syncs)
+	fail     bool     // every Write and Sync reports an error (the lock must be released all the same)
 }
+
+var errSinkDown = errors.New("sink down")
 
 func (s *exclSink) enter() {
 	if s.inUse {
@@ -536,9 +586,19 @@ func (s *exclSink) enter() {
 func (s *exclSink) Write(p []byte) (int, error) {
 	s.log = append(s.log, "W"+string(p))
 	s.enter()
+	if s.fail {
+		return 0, errSinkDown
+	}
 	return len(p), nil
 }
-func (s *exclSink) Sync() error { s.log = append(s.log, "S"); s.enter(); return nil }
+func (s *exclSink) Sync() error {
+	s.log = append(s.log, "S")
+	s.enter()
+	if s.fail {
+		return errSinkDown
+	}
+	return nil
+}
 
 func lockHandler(item string, replay []int, isReplay bool, journal func([]int)) mc.ItemResult {
 	// item: lock|<wrapper>|ops per thread e.g. W,S;S;W
@@ -555,6 +615,13 @@ func lockHandler(item string, replay []int, isReplay bool, journal func([]int)) 
 		switch wrapper {
 		case "Lock":
 			ws = zapcore.Lock(s)
+		case "LockFailing": // a sink that is down: the lock is released on the error path too (a leaked lock deadlocks the next call)
+			s.fail = true
+			ws = zapcore.Lock(s)
+		case "CombineFailing":
+			s.fail = true
+			s2 = &exclSink{}
+			ws = zap.CombineWriteSyncers(s, s2)
 		case "LockLock":
 			ws = zapcore.Lock(zapcore.Lock(s))
 		case "Combine1":
@@ -644,7 +711,7 @@ func main() {
 
 	var items []string
 	progs := []string{"W", "S", "W,S", "S,W", "W,W"}
-	for _, wr := range []string{"Lock", "LockLock", "Combine1", "Combine2", "LockMulti", "LockMultiLocked", "CombineLocked"} {
+	for _, wr := range []string{"Lock", "LockLock", "Combine1", "Combine2", "LockMulti", "LockMultiLocked", "CombineLocked", "LockFailing", "CombineFailing"} {
 		for i := 0; i < len(progs); i++ {
 			for j := i; j < len(progs); j++ {
 				items = append(items, fmt.Sprintf("lock|%s|%s;%s", wr, progs[i], progs[j]))
@@ -680,7 +747,7 @@ func main() {
 		"traces_validated_against_impl": int64(e1+e2+e3) + sum.Execs,
 		"evaluations":                   int64(e1+e2+e3) + sum.Execs,
 		"distinct_nontrivial":           len(d1) + len(d3) + len(sum.Outcomes),
-		"rule":                          "writers: every string of <=4 units over {a,space,LF,TAB,CR} plus 64KiB payloads on every zap writer, fresh and in sequence; relays: every (count,error,sync error) outcome; multi: every outcome vector in {full,short,zero}x{nil,err} for k<=maxK sinks on Write and every failure mask on Sync, via NewMultiWriteSyncer and CombineWriteSyncers, the failing sinks returning distinct error values, one shared error value, or (k<=4) errors that wrap one another; lock: all interleavings. distinct = distinct (writer class, outcome) / outcome vectors / end observations",
+		"rule":                          "writers: every string of <=4 units over {a,space,LF,TAB,CR} plus 64KiB payloads on every zap writer, fresh and in sequence; relays: every (count,error,sync error) outcome; multi: every outcome vector in {full,short,zero}x{nil,err} for k<=maxK sinks on Write and every failure mask on Sync, via NewMultiWriteSyncer and CombineWriteSyncers, the failing sinks returning distinct error values, one shared error value, or (k<=4) errors that wrap one another, and (k in 3..5) with part of the sinks nested in an inner multi-syncer; lock: all interleavings. distinct = distinct (writer class, outcome) / outcome vectors / end observations",
 		"samples": []any{
 			map[string]any{"writer": "std-log bridge NewStdLog", "payload": " a \n"},
 			map[string]any{"multi_outcomes": "(0,false)(10,false)", "expect_count": 0},
@@ -695,4 +762,13 @@ func main() {
 		"lock_schedules":       sum.Execs,
 		"lock_preemptionbound": "unbounded",
 	})
+}
+
+// sameSyncer: identity of two WriteSyncer values (a multi-syncer is a slice, which == cannot compare).
+func sameSyncer(a, b zapcore.WriteSyncer) bool {
+	va, vb := reflect.ValueOf(a), reflect.ValueOf(b)
+	if va.Kind() == reflect.Slice || vb.Kind() == reflect.Slice {
+		return va.Kind() == vb.Kind() && va.Type() == vb.Type() && va.Len() == vb.Len() && va.Pointer() == vb.Pointer()
+	}
+	return a == b
 }
